@@ -47,3 +47,21 @@ def hierarchyOk (r : ClassRow) : Bool :=
   && (r.isA "AdditionOperator" == (r.name == "AdditionOperator"))
 
 end Furax
+
+namespace Furax
+open Generated
+
+/-- `jnp.result_type(a, b)` as read from the source environment -/
+def promote (x64 : Bool) (a b : String) : Option String :=
+  (promotion.find? fun r => r.1 == x64 && r.2.1 == a && r.2.2.1 == b).map (·.2.2.2)
+
+def dtypeNames : List String :=
+  ["bool", "int32", "int64", "float16", "float32", "float64", "complex64", "complex128"]
+
+/-- 64-bit types are canonicalised to their 32-bit counterparts when 64-bit mode is off -/
+def canonical (x64 : Bool) (a : String) : String :=
+  if x64 then a else
+    if a == "int64" then "int32" else if a == "float64" then "float32"
+    else if a == "complex128" then "complex64" else a
+
+end Furax
